@@ -285,6 +285,11 @@ def tlc(ctx, module, cfg=None, workers=8, timeout=900, simulate=None, depth=None
             res["coverage"][m.group(1)] = int(m.group(3))
         if not quiet and len(res["other_lines"]) < 400:
             res["other_lines"].append(line)
+    # TLC's workers print cases in a nondeterministic order: sort them, so that the universe order (and with it every
+    # seeded sample) is a function of the seed alone
+    if not simulate:
+        for tag in res["cases"]:
+            res["cases"][tag].sort(key=lambda r: json.dumps(r, sort_keys=True))
     res["ok"] = (rc == 0 and not res["errors"])
     res["text_tail"] = ""
     if not res["ok"]:
